@@ -15,11 +15,22 @@ def run(args):
         from bqsa.loader import Program, AnalysisError
         P = Program(d)
         out = []
+        fns = []
         for spec in specs:
-            mod, fn = spec.split(':')
-            m = importlib.import_module('bqsa.rules.' + mod)
+            if spec in ('ALL', 'ALLT'):
+                from bqsa import props
+                seen = set()
+                for pid, pd in sorted(props.PROPS.items()):
+                    for f in pd['quick'] + (pd.get('thorough', []) if spec == 'ALLT' else []):
+                        if f not in seen:
+                            seen.add(f)
+                            fns.append((f.__name__, f))
+            else:
+                mod, fn = spec.split(':')
+                fns.append((fn, getattr(importlib.import_module('bqsa.rules.' + mod), fn)))
+        for fn, f in fns:
             try:
-                rs = getattr(m, fn)(P)
+                rs = f(P)
                 for r in (rs if isinstance(rs, list) else [rs]):
                     for f in r.findings:
                         out.append(f'{r.rule} {f.construct.split(":")[-1][:40]} [{f.detail[:40]}]')
@@ -38,11 +49,16 @@ for p in sorted(glob.glob('/verif/selftest/benign/*.diff')):
 for d in sorted(glob.glob('/verif/seeded/*/')) + sorted(glob.glob('/tmp/seeds3/*/*/')):
     if os.path.exists(d + 'patch.diff'):
         jobs.append(('seed', d.rstrip('/').split('/')[-1] if 'seeded' in d else '/'.join(d.rstrip('/').split('/')[-2:]), d + 'patch.diff', specs))
+base = set(run(jobs[0])[2])
+print(f'HEAD: {len(base)} findings (known findings and the like); only differences are shown below')
 with concurrent.futures.ProcessPoolExecutor(max_workers=14) as ex:
-    for kind, name, out in ex.map(run, jobs):
+    for kind, name, out in ex.map(run, jobs[1:]):
+        out = set(out) - base
         if kind in ('benign', 'clean'):
             if out:
-                print(f'!! {kind} {name}:', ' | '.join(sorted(set(out))))
+                print(f'!! {kind} {name}:', ' | '.join(sorted(out)))
         elif out:
-            print(f'   seed {name}:', ' | '.join(sorted(set(out)))[:260])
+            print(f'   seed {name}:', ' | '.join(sorted(out))[:300])
+        elif kind == 'seed':
+            print(f'?? seed {name}: MISSED')
 print('done')
